@@ -383,6 +383,10 @@ func jobsFor(quick bool) []jobT {
 		bounds = []int{0, 1, 2}
 	}
 	for si := 0; si < n; si++ {
+		bounds := bounds
+		if quick && si < 2 {
+			bounds = []int{0, 1, 2} // the two-thread definition scenarios are small enough for bound 2 on every change
+		}
 		for _, b := range bounds {
 			ns := 1
 			if b == 1 && (len(scen.Scenarios()[si].Calls) > 2 || strings.HasPrefix(scen.Scenarios()[si].Name, "S3") || strings.HasPrefix(scen.Scenarios()[si].Name, "S2")) {
@@ -390,6 +394,9 @@ func jobsFor(quick bool) []jobT {
 			}
 			if b >= 2 {
 				ns = 32
+			}
+			if quick && b >= 2 {
+				ns = 16
 			}
 			for k := 0; k < ns; k++ {
 				js = append(js, jobT{kind: "schedule", sc: si, bound: b, shard: k, nshards: ns})
@@ -431,7 +438,7 @@ func plan(c *hx.Ctx) *hx.Plan {
 		},
 		Describe: func(i int) string { return fmt.Sprintf("%+v", js[i]) },
 		Rule:     "schedules: 8 scenarios of 2-3 threads with one call each on ONE shared parser / lexer definition / the ebnf package parser (inputs chosen to hit the same and different back-reference cache keys, success / failure / lex error / String()), run on instrumented copies of the current sources (a scheduling point at every function entry, loop head and sync operation) under a cooperative scheduler; DFS over all schedules with at most 0, 1 (thorough: 2) preemptions, plus ALL schedules at sync-operation granularity; histories: BFS over every sequence of up to 3 (thorough 4) calls from a 9-call alphabet on one shared parser; interleavings: every interleaving at Next() granularity of 2-3 live lexers of one shared definition (runtime back-reference cache, NUL-aliasing cache keys, nested states, and a lexer generated by the repository's CLI). Oracle: every call returns what it returns on a fresh instance used alone; no deadlock; schedules that fail are replayed twice and must reproduce. A separate free-running pass of the same scenario bodies built with -race from the uninstrumented tree looks for data races (detector run, not an enumeration). evaluations = executions + histories + interleavings",
-		Bounds:   map[string]any{"preemption_bounds": map[bool][]int{true: {0, 1}, false: {0, 1, 2}}[c.Quick()], "history_depth": depth, "race_rounds": rounds, "max_executions_per_scenario_and_bound": maxExecs, "granularity": "function entry + loop head + sync op"},
+		Bounds:   map[string]any{"preemption_bounds": map[bool]string{true: "0,1 (and 2 for the two-thread definition scenarios S1a, S1b)", false: "0,1,2"}[c.Quick()], "history_depth": depth, "race_rounds": rounds, "max_executions_per_scenario_and_bound": maxExecs, "granularity": "function entry + loop head + sync op"},
 		Assume:   []string{"interleavings inside a basic block and weak-memory effects are not explored", "data races are decided only by the race detector on the executed scenarios", "generated lexer code is not instrumented: it is covered at Next() granularity and by the race pass"},
 	}
 }
